@@ -272,14 +272,14 @@ func (c *cfgFloat) toUint(*options) (uint64, error) {
 	if c.f < 0 {
 		return 0, ErrNegative
 	}
-	if c.f > math.MaxUint64 {
+	if math.IsNaN(c.f) || c.f >= math.MaxUint64 {
 		return 0, ErrOverflow
 	}
 	return uint64(c.f), nil
 }
 
 func (c *cfgFloat) toInt(*options) (int64, error) {
-	if c.f < math.MinInt64 || math.MaxInt64 < c.f {
+	if math.IsNaN(c.f) || c.f < math.MinInt64 || math.MaxInt64 <= c.f {
 		return 0, ErrOverflow
 	}
 	return int64(c.f), nil
